@@ -112,6 +112,7 @@ pub fn check(st: &mut Stats, c: &C) {
             st.obs(Op::T_try_from_usecs, &tm);
             let exp = radix(us);
             st.op(Op::T_extract);
+            st.op(Op::T_usecs);
             if tm.extract() != exp || tm.usecs() != us {
                 st.fail("C07/time/extract-wrong", format!("{} -> {:?} expected {:?}", us, tm.extract(), exp));
             }
